@@ -165,7 +165,8 @@ func (p *provider) watchChanges(ctx context.Context, rsf RuleSetFetcher) error {
 			Str("_endpoint", rsf.ID()).
 			Msg("Failed to fetch rule set")
 
-		if errors.Is(err, heimdall.ErrInternal) || errors.Is(err, heimdall.ErrConfiguration) {
+		// if the fetcher could retrieve at least some information, it is returned along with the error
+		if ruleSets == nil && (errors.Is(err, heimdall.ErrInternal) || errors.Is(err, heimdall.ErrConfiguration)) {
 			return err
 		}
 	}
@@ -195,6 +196,9 @@ func (p *provider) ruleSetsUpdated(ruleSets []*rule_config.RuleSet, state Bucket
 	removedIDs := slicex.Subtract(oldIDs, currentIDs)
 	newIDs := slicex.Subtract(currentIDs, oldIDs)
 
+	// a rule set, which cannot be applied, must not prevent the other rule sets from being applied
+	var failures []error
+
 	for _, ID := range removedIDs {
 		conf := &rule_config.RuleSet{
 			MetaData: rule_config.MetaData{
@@ -206,7 +210,9 @@ func (p *provider) ruleSetsUpdated(ruleSets []*rule_config.RuleSet, state Bucket
 		}
 
 		if err := p.p.OnDeleted(conf); err != nil {
-			return err
+			failures = append(failures, err)
+
+			continue
 		}
 
 		delete(state, ID)
@@ -214,6 +220,12 @@ func (p *provider) ruleSetsUpdated(ruleSets []*rule_config.RuleSet, state Bucket
 
 	// check which rule sets are new and which are modified
 	for _, ruleSet := range ruleSets {
+		if len(ruleSet.Rules) == 0 {
+			// the blob exists, but its contents are not usable. If a rule set
+			// has been loaded from it in the past, that one is kept.
+			continue
+		}
+
 		isNew := slices.Contains(newIDs, ruleSet.Source)
 		hasChanged := !isNew && !bytes.Equal(state[ruleSet.Source], ruleSet.Hash)
 
@@ -235,13 +247,15 @@ func (p *provider) ruleSetsUpdated(ruleSets []*rule_config.RuleSet, state Bucket
 		}
 
 		if err != nil {
-			return err
+			failures = append(failures, err)
+
+			continue
 		}
 
 		state[ruleSet.Source] = ruleSet.Hash
 	}
 
-	return nil
+	return errors.Join(failures...)
 }
 
 func (p *provider) getBucketState(key string) BucketState {
